@@ -12,7 +12,7 @@ SPEC = {"module": "models.ormmodel", "profile": "handwritten", "order": [], "cla
                                                  f("opt", "opt_float")]},
     {"name": "Mid", "parent": "Base0", "fields": [f("owner", "opt_ref", "Holder"), f("budget", "opt_money")]},
     {"name": "Leaf", "parent": "Mid", "fields": [f("things", "list_ref", "Item"), f("where", "opt_ref", "Vec")]},
-    {"name": "Port", "parent": None, "fields": [f("uid", "int"), f("shape", "opt_ref", "ShapeBase")]},
+    {"name": "Port", "parent": None, "fields": [f("uid", "int"), f("shape", "opt_ref", "ShapeBase"), f("stamp", "opt_ref", "Stamp")]},
     {"name": "ShapeBase", "parent": None, "fields": [f("uid", "int"), f("name", "str"), f("turn", "int"), f("ports", "list_ref", "Port")]},
     {"name": "Circle", "parent": "ShapeBase", "fields": [f("r", "float"), f("center", "opt_ref", "Vec")]},
     {"name": "Ring", "parent": "Circle", "fields": [f("thick", "float")]},
